@@ -47,10 +47,25 @@ def make_dir(rng, root):
                 with open(p, "wb") as fp:
                     fp.write(b"x" * size)
                 mt = 1_500_000_000 + rng.randint(0, 10**8) + (rng.random() if rng.random() < 0.65 else 0)  # also whole seconds
+                if rng.random() < 0.06:
+                    mt = -rng.randint(1, 10**8) - rng.choice([0, 0.5])  # last modified before 1970 (a negative time stamp is legal)
                 os.utime(p, (mt, mt))
 
     fill(root, 0)
-    if rng.random() < 0.08:
+    if rng.random() < 0.06:
+        # a round number of entries: the tree ends up with exactly 1000 (or 2000) nodes
+        want = 1000 if rng.random() < 0.7 else 2000
+        pad = os.path.join(root, "zz-pad")
+        os.mkdir(pad)
+        count[0] += 1
+        i = 0
+        while count[0] < want:
+            with open(os.path.join(pad, f"p{i:04d}"), "wb") as fp:
+                fp.write(b"")
+            os.utime(os.path.join(pad, f"p{i:04d}"), (1_600_000_000, 1_600_000_000))
+            count[0] += 1
+            i += 1
+    elif rng.random() < 0.08:
         # many folders (the count is not the depth): 320 sibling folders, some with a file, behind whatever else is there
         bulk = os.path.join(root, "zz-bulk")
         os.mkdir(bulk)
@@ -224,9 +239,13 @@ def run_case(case, res):
                 bad.append("save/load with the class's default mappers changed the listing")
             # compressed round trip
             t.save(pth, compression=True)
-            t4 = FileSystemTree.load(pth)
+            # ... and the snapshot is moved before it is read (archived under another name)
+            moved = os.path.join(tmp, "archive", "snapshot-2024.bak")
+            os.makedirs(os.path.dirname(moved), exist_ok=True)
+            os.replace(pth, moved)
+            t4 = FileSystemTree.load(moved)
             if tree_listing(t4) != got:
-                bad.append("compressed save/load changed the listing")
+                bad.append("compressed save/load (file renamed in between) changed the listing")
             # the directory changes and is scanned again in the same process: the second scan mirrors the *new* state
             t_late = load_tree_from_fs(root, sort=sort)  # returned before the change, read only after it
             changed = mutate_dir(rng, root)
